@@ -229,6 +229,12 @@ theorem writePoscarDoc_eq (s : Sys) (header : List String) (symbols : Option (Li
   unfold writePoscarDoc writePoscarDoc' isCartStyle
   rfl
 
+/-- the symbols a written POSCAR file carries: those of its symbols line, or none per counted type. -/
+def writtenSymbols (symbols : Option (List String)) (counts : List Nat) : List (Option String) :=
+  match symbols with
+  | some l => l.map some
+  | none => counts.map fun _ => none
+
 /-- **load ∘ dump for POSCAR**: for every POSCAR file the C07 writer emits, the loader returns the cell
     `scale × printed lattice rows` (origin 0), the atom types `1, 2, …` repeated by the printed counts, the symbols of
     the symbols line (or the caller's), and the positions `scale × printed row` (Cartesian) or
@@ -247,9 +253,7 @@ theorem loadPoscar_writePoscar {f : Fmt} (hf : Readable f) (s : Sys) (header : L
       .ok (poscarLoaded f scale (poscarNums s (isCartStyle coordstyle) scale).lattice
         (poscarNums s (isCartStyle coordstyle) scale).counts (poscarNums s (isCartStyle coordstyle) scale).coords
         (isCartStyle coordstyle)
-        (symArg.getD (match symbols with
-          | some l => l.map some
-          | none => (poscarNums s (isCartStyle coordstyle) scale).counts.map fun _ => none))) := by
+        (symArg.getD (writtenSymbols symbols (poscarNums s (isCartStyle coordstyle) scale).counts))) := by
   unfold writePoscar at hw
   rw [writePoscarDoc_eq] at hw
   unfold writePoscarDoc' at hw
@@ -293,6 +297,7 @@ theorem loadPoscar_writePoscar {f : Fmt} (hf : Readable f) (s : Sys) (header : L
       have := loadPoscarLines_nosym hf (joinSp (header.map strTok)) scale p.lattice p.counts coordstyle p.coords hlen symArg
       simp only [List.cons_append, List.nil_append] at this
       rw [this, hiscart]
+      rfl
     · intro l hl t ht
       simp only [List.cons_append, List.nil_append, List.mem_cons, List.mem_append, List.mem_map] at hl
       rcases hl with rfl | rfl | rfl | rfl | rfl | rfl | rfl | ⟨v, _, rfl⟩
@@ -323,6 +328,7 @@ theorem loadPoscar_writePoscar {f : Fmt} (hf : Readable f) (s : Sys) (header : L
           hs1 hs2 symArg
         simp only [List.cons_append, List.nil_append] at this
         rw [this, hiscart]
+        rfl
       · intro l' hl' t ht
         simp only [List.cons_append, List.nil_append, List.mem_cons, List.mem_append, List.mem_map] at hl'
         rcases hl' with rfl | rfl | rfl | rfl | rfl | rfl | rfl | rfl | ⟨v, _, rfl⟩
